@@ -49,3 +49,17 @@ impl Parser {
 pub open spec fn bin_node(r: IdedExpr, name: Seq<char>, lhs: Expr, rhs: Expr) -> bool {
     r.expr matches Expr::Call(c) && c.func_name@ == name && c.target is None && c.args@.len() == 2 && c.args@[0].expr == lhs && c.args@[1].expr == rhs
 }
+// ---- conditional ----
+#[verifier::external_body] pub struct ConditionalOrContextAll { x: u8 }
+#[verifier::external_body] pub struct ExprContextAll { x: u8 }
+pub uninterp spec fn visit_cor_spec(node: ConditionalOrContextAll) -> Expr;
+pub uninterp spec fn visit_expr_spec(node: ExprContextAll) -> Expr;
+pub struct ExprContext { pub op: Option<Box<CommonToken>>, pub e: Option<Rc<ConditionalOrContextAll>>, pub e1: Option<Rc<ConditionalOrContextAll>>, pub e2: Option<Rc<ExprContextAll>> }
+impl ExprContext {
+    #[verifier::external_body] pub fn start(&self) -> Rc<CommonToken> { unimplemented!() }
+}
+#[verifier::external_body] pub fn __fmt_incomplete_expr() -> String { unimplemented!() }
+impl Parser {
+    #[verifier::external_body] fn visit_cor(&mut self, node: &ConditionalOrContextAll) -> (r: IdedExpr) ensures r.expr == visit_cor_spec(*node) { unimplemented!() }
+    #[verifier::external_body] fn visit_expr_node(&mut self, node: &ExprContextAll) -> (r: IdedExpr) ensures r.expr == visit_expr_spec(*node) { unimplemented!() }
+}
